@@ -71,6 +71,10 @@ fn main() {
             checks::c16b::debug(&args);
             std::process::exit(0);
         }
+        ("C16CDBG", _) => {
+            checks::c16c::debug(&args);
+            std::process::exit(0);
+        }
         ("C15DBG", _) => {
             checks::c15b::debug(&args);
             std::process::exit(0);
